@@ -299,7 +299,17 @@ func RuleListen(r *Report, p *Program) {
 			cf := consumer.Fn.(*ssa.Function)
 			w := NewWalker(p)
 			w.LoopFuel = 2
-			w.Inline = func(f *ssa.Function, d int) bool { return f.Parent() != nil }
+			upk := p.SSAPkg("uhppote")
+			w.Inline = func(f *ssa.Function, d int) bool {
+				if f.Parent() != nil {
+					return true
+				}
+				if f.Pkg == upk && f.Object() != nil && !f.Object().Exported() && a.Senders[f] == "" && f.Name() != "debugf" {
+					res := f.Signature.Results()
+					return !(res.Len() == 1 && isBoolType(res.At(0).Type()))
+				}
+				return false
+			}
 			var evT types.Type
 			w.OnRecv = func(w *Walker, ch *Term, t types.Type, id int) (*Term, bool) {
 				pt, ok := t.Underlying().(*types.Pointer)
